@@ -119,6 +119,14 @@ func zzSetupContents(nMax, contents int) (*kube.Store, *v1.Composition, []zzRev)
 			// owner references stripped by backup/restore
 			r.SetOwnerReferences(nil)
 		}
+		if i == 0 && k != cur && zz.Bool(nm+".hashLabelLost") {
+			// a revision of some other content that no longer carries its hash
+			// label (written by an older release, hand-made, label removed): it
+			// says nothing about the current content
+			l := r.GetLabels()
+			delete(l, v1.LabelCompositionHash)
+			r.SetLabels(l)
+		}
 		s.Put(r)
 		pre = append(pre, zzRev{name: r.GetName(), content: zzContents[k], number: num, controlled: controlled})
 	}
